@@ -49,8 +49,10 @@ use vnode::treegen::{Mutation, TreeCfg, TreeGen};
 
 struct RNode {
     shared: Shared,
-    scope: ChainServiceScope,
+    /// holds a ChainController clone: must be dropped before `scope` (field order), whose drop
+    /// joins the chain service thread once every controller is gone
     relayer: Relayer,
+    scope: ChainServiceScope,
     _network: NetworkController,
     _net_dir: tempfile::TempDir,
 }
@@ -269,7 +271,6 @@ enum Known {
 
 struct Sess {
     si: u64,
-    gi: GenesisInfo,
     tg: TreeGen,
     n: RNode,
     rng: Rng,
@@ -287,6 +288,11 @@ struct Sess {
     ops: Vec<String>,
     params_desc: String,
     dead: bool,
+}
+
+fn stored_block(shared: &Shared, x: &H) -> Option<BlockView> {
+    use ckb_store::ChainStore;
+    shared.store().get_block(&Byte32::from_slice(x).unwrap())
 }
 
 fn id_hex(id: &ProposalShortId) -> String {
@@ -1106,6 +1112,140 @@ impl Sess {
         }
     }
 
+    /// Message-level episode: a CompactBlock carrying the honest header of the next block but a
+    /// tampered body part that the transactions root does not cover (proposals / extension /
+    /// uncle list), every transaction prefilled. The refuting event: a block that no verified
+    /// header commits to becomes the node's tip.
+    fn forge_episode(&mut self, r: &mut Report) {
+        let mut found: Option<(H, BlockView)> = None;
+        for _ in 0..10 {
+            if self.dead {
+                return;
+            }
+            let p = self.tg.tip();
+            let x = self.tg.extend(&p);
+            let xb = (*self.tg.rc.get(&x).block).clone();
+            let all_known = xb
+                .uncles()
+                .hashes()
+                .into_iter()
+                .all(|u| self.delivered.get(&h(&u)) == Some(&Known::Stored));
+            if all_known {
+                found = Some((p, xb));
+                break;
+            }
+            if !self.deliver(&x, r, true) {
+                return;
+            }
+        }
+        let Some((p, xb)) = found else {
+            r.count("msg.forge.no_suitable_block");
+            return;
+        };
+        r.count("msg.forge.episodes");
+        vnode::node::set_time(xb.timestamp() + 1_000);
+        let all: HashSet<usize> = (1..xb.transactions().len()).collect();
+        let honest = packed::CompactBlock::build_from_block(&xb, &all);
+        let mut parts = parts_of(&honest);
+        let kinds = [Tamper::ProposalsAdd, Tamper::ExtensionAppend, Tamper::UncleDrop, Tamper::ProposalsDrop];
+        let mut kind = kinds[self.rng.usize_below(kinds.len())];
+        let empty = HashMap::new();
+        let how = match self.tamper(kind, &mut parts, &xb, &empty) {
+            Some(s) => s,
+            None => {
+                kind = Tamper::ProposalsAdd;
+                parts = parts_of(&honest);
+                self.tamper(kind, &mut parts, &xb, &empty).unwrap()
+            }
+        };
+        let cb = build_compact(&parts);
+        let nc = Arc::new(netctx::RecordingContext::new(SupportProtocols::RelayV3));
+        let peer: PeerIndex = 9usize.into();
+        let msg = packed::RelayMessage::new_builder().set(cb).build().as_bytes();
+        let rt = &self.rt;
+        let relayer = &mut self.n.relayer;
+        let nc1: Arc<dyn ckb_network::CKBProtocolContext + Sync> = nc.clone();
+        let r1 = catch_unwind(AssertUnwindSafe(|| rt.block_on(relayer.received(nc1, peer, msg))));
+        r.eval();
+        r.distinct_str(&format!("forge|{kind:?}|{}", xb.uncles().hashes().len()));
+        let reset_time = || vnode::node::set_time(ChainParams::default().genesis_timestamp + 3_000_000_000);
+        self.dead = true;
+        if let Err(pn) = r1 {
+            let _ = hooks::take_panics();
+            let msg = panic_msg(&pn);
+            r.violation(
+                &format!("relay.received_panicked@tampered_compact_block:{}", msg.chars().take(50).collect::<String>()),
+                format!("Relayer::received panicked on a CompactBlock with {how}: {msg}"),
+                self.witness(json!({"block": vbase::hex(xb.hash().as_slice()), "tamper": format!("{kind:?}")})),
+            );
+            reset_time();
+            return;
+        }
+        // accept_block hands the reconstructed block to the chain service asynchronously
+        let t0 = Instant::now();
+        while self.n_tip() == p && t0.elapsed() < Duration::from_secs(6) {
+            std::thread::sleep(Duration::from_millis(1));
+        }
+        let tip = self.n_tip();
+        if tip == p {
+            r.count("msg.forge.outcome.not_accepted");
+            reset_time();
+            return;
+        }
+        if tip == h(&xb.hash()) {
+            r.count("msg.forge.outcome.honest_block_accepted");
+            reset_time();
+            return;
+        }
+        let tb = stored_block(&self.n.shared, &tip);
+        let (pow_ok, desc) = match &tb {
+            Some(b) => (
+                self.n.shared.consensus().pow_engine().verify(&b.header().data()),
+                format!(
+                    "tip {}#{} parent {} proposals={} uncles={} extension={:?}",
+                    vbase::hex(b.hash().as_slice()), b.number(), hx(&h(&b.parent_hash())), b.data().proposals().len(),
+                    b.uncles().hashes().len(), b.extension().map(|e| e.raw_data().len())
+                ),
+            ),
+            None => (false, "tip block not readable".into()),
+        };
+        // does the honest block still get through afterwards?
+        let nc2: Arc<dyn ckb_network::CKBProtocolContext + Sync> = nc.clone();
+        let msg2 = packed::RelayMessage::new_builder().set(honest).build().as_bytes();
+        let relayer = &mut self.n.relayer;
+        let peer2: PeerIndex = 10usize.into();
+        let _ = catch_unwind(AssertUnwindSafe(|| rt.block_on(relayer.received(nc2, peer2, msg2))));
+        let t1 = Instant::now();
+        let mut honest_stored = false;
+        while t1.elapsed() < Duration::from_secs(3) {
+            if stored_block(&self.n.shared, &h(&xb.hash())).is_some() {
+                honest_stored = true;
+                break;
+            }
+            std::thread::sleep(Duration::from_millis(2));
+        }
+        r.count("msg.forge.outcome.forged_block_became_tip");
+        r.violation(
+            if pow_ok {
+                "relay.block_no_verified_header_commits_to_became_tip"
+            } else {
+                "relay.block_with_invalid_pow_became_tip"
+            },
+            format!(
+                "a CompactBlock with the honest header {} (verified by HeaderVerifier) and {how} made the node adopt {desc} — a block whose hash was never announced and whose seal is {}",
+                vbase::hex(xb.hash().as_slice()),
+                if pow_ok { "accepted by the PoW engine (dummy PoW in this session)" } else { "INVALID for the PoW engine" }
+            ),
+            self.witness(json!({
+                "honest_block": vbase::hex(xb.hash().as_slice()), "tamper": format!("{kind:?}"), "how": how,
+                "tip_after": vbase::hex(&tip), "tip_pow_valid": pow_ok, "tip": desc,
+                "honest_block_stored_when_relayed_afterwards": honest_stored,
+                "bans": nc.bans.lock().unwrap().iter().map(|(p, s)| format!("{p}: {s}")).collect::<Vec<_>>(),
+            })),
+        );
+        reset_time();
+    }
+
     /// Message-level episode through `Relayer::received` with a recording protocol context:
     /// CompactBlock with an uncle N does not know (all transactions prefilled) -> the node asks
     /// for the uncle -> BlockTransactions answering with the uncle (control) or with FEWER
@@ -1194,7 +1334,7 @@ impl Sess {
             );
         }
         let uncles: Vec<packed::UncleBlock> = if fewer {
-            ask_uncles.iter().skip(1).map(|i| xb.uncles().get(*i as usize).unwrap().data()).collect()
+            ask_uncles.iter().take(ask_uncles.len() - 1).map(|i| xb.uncles().get(*i as usize).unwrap().data()).collect()
         } else {
             ask_uncles.iter().map(|i| xb.uncles().get(*i as usize).unwrap().data()).collect()
         };
@@ -1268,7 +1408,13 @@ fn run_session(si: u64, rng: &mut Rng, r: &mut Report, deadline: Instant, rounds
         _ => params.window = (2, 4),
     }
     // long epochs: uncles must be of the block's epoch
-    params.epoch = EpochMode::Permanent { genesis_len: 60, epoch_len: 60 };
+    params.epoch = EpochMode::Permanent { genesis_len: 400, epoch_len: 400 };
+    // every fourth session runs with real proof of work (Eaglesong, difficulty 64) so that the
+    // message-level episodes can tell whether an accepted block carries a valid seal
+    if si % 4 == 3 {
+        params.eaglesong = true;
+        params.compact_target = Some(0x2004_0000);
+    }
     params.max_uncles_num = Some(2 + (si % 3) as usize);
     params.issued_cells = 40;
     let gi = consensus::build(&params);
@@ -1290,7 +1436,6 @@ fn run_session(si: u64, rng: &mut Rng, r: &mut Report, deadline: Instant, rounds
     let genesis = tg.rc.genesis;
     let mut s = Sess {
         si,
-        gi,
         tg,
         n,
         rng: rng.fork(5),
@@ -1302,7 +1447,7 @@ fn run_session(si: u64, rng: &mut Rng, r: &mut Report, deadline: Instant, rounds
         orphans: vec![],
         invalids: vec![],
         ops: vec![],
-        params_desc: format!("window={:?} max_uncles={:?}", params.window, params.max_uncles_num),
+        params_desc: format!("window={:?} max_uncles={:?} eaglesong={}", params.window, params.max_uncles_num, params.eaglesong),
         dead: false,
     };
     r.count("sessions");
@@ -1320,7 +1465,11 @@ fn run_session(si: u64, rng: &mut Rng, r: &mut Report, deadline: Instant, rounds
         s.round(r, variants);
     }
     if !s.dead {
-        s.message_episode(r, si % 2 == 0);
+        match si % 3 {
+            0 => s.message_episode(r, true),
+            1 => s.message_episode(r, false),
+            _ => s.forge_episode(r),
+        }
     }
     for (k, v) in s.tg.stats.iter() {
         r.count_n(&format!("treegen.{k}"), *v);
@@ -1340,8 +1489,11 @@ fn main() {
     );
     let mut rng = Rng::new(args.seed ^ 0x2E1A7);
     let budget = args.get_u64("budget_s", args.tier.pick(40, 480));
-    let sessions = args.get_u64("sessions", args.tier.pick(24, 4000));
-    let rounds = args.get_u64("rounds", args.tier.pick(14, 30));
+    // A node with a tx-pool service cannot be shut down inside a process (the stop handler is a
+    // process-global one-shot), so every session leaves its RocksDB open (~75 MB of preallocated
+    // WAL in the RAM scratch dir) until exit: few long sessions instead of many short ones.
+    let sessions = args.get_u64("sessions", args.tier.pick(12, 400));
+    let rounds = args.get_u64("rounds", args.tier.pick(28, 200));
     let variants = args.get_u64("variants", args.tier.pick(10, 24)) as usize;
     let deadline = Instant::now() + Duration::from_secs(budget);
     for si in 0..sessions {
@@ -1350,7 +1502,11 @@ fn main() {
             break;
         }
         let mut srng = rng.fork(si);
+        let t0 = Instant::now();
         run_session(si, &mut srng, &mut r, deadline, rounds, variants);
+        if std::env::var("VERIF_DEBUG").is_ok() {
+            eprintln!("session {si} took {:.2}s", t0.elapsed().as_secs_f64());
+        }
         for p in hooks::take_panics() {
             let file = p.location.rsplit('/').next().unwrap_or("").split(':').next().unwrap_or("").to_string();
             r.violation(
